@@ -133,7 +133,10 @@ TrEnd ==
                         /\ r.hcalls <= f.hcalls
                         /\ (Sequential /\ f.hcalls = Len(BlocksOf(f.items)) => r.hsum = r.storedsum))
                  \* C17(2): the options (set before the first write) are in force, also after Reset
-                 /\ (~Legacy => <<r.flg, r.bd, r.csize>> = desc)
+                 \* (r.exp*: what the options in force for that life imply; they equal desc unless the Writer was
+                 \* re-configured with Apply after a Reset)
+                 /\ (~Legacy => <<r.flg, r.bd, r.csize>> = <<r.expflg, r.expbd, r.expcsize>>)
+                 /\ (~Legacy /\ ~r.reconf => <<r.expflg, r.expbd, r.expcsize>> = desc)
 
 TraceNext == TrNew \/ TrCall \/ TrEnd
 
